@@ -62,7 +62,18 @@ def res_json(r):
 
 # ------------------------------------------------------------------ generation
 def gen_crs(r):
-    k = r.choice(["longlat", "longlat", "longlat", "epsg4326", "laea", "laea", "stere", "merc", "eqc", "laea_info", "epsg3035"])
+    k = r.choice(["longlat", "longlat", "longlat", "epsg4326", "laea", "laea", "stere", "merc", "eqc", "laea_info", "epsg3035",
+                  "pm_projected", "pm_geographic", "epsg_merc"])
+    if k == "pm_projected":      # prime meridian other than Greenwich (EPSG and PROJ spellings)
+        return k, r.choice(["EPSG:27571",
+                            "+proj=lcc +lat_1=49.5 +lat_0=49.5 +lon_0=0 +x_0=600000 +y_0=200000 +ellps=WGS84 +pm=paris +units=m",
+                            {"proj": "merc", "pm": -90}, {"proj": "laea", "lat_0": 50, "lon_0": 5, "pm": 10, "ellps": "WGS84"},
+                            {"proj": "eqc", "pm": 180, "ellps": "WGS84"}]), None
+    if k == "pm_geographic":
+        return k, r.choice(["+proj=longlat +ellps=WGS84 +pm=180 +no_defs", {"proj": "longlat", "pm": "paris", "ellps": "WGS84"},
+                            {"proj": "longlat", "pm": 10, "datum": "WGS84"}, {"proj": "longlat", "pm": -90, "ellps": "WGS84"}]), None
+    if k == "epsg_merc":         # CRSs with an area of use and x = 0 at lon 0
+        return k, r.choice(["EPSG:3857", "EPSG:3395"]), None
     if k == "longlat":
         return k, r.choice([{"proj": "longlat"}, {"proj": "longlat", "ellps": "WGS84"}, {"proj": "longlat", "datum": "WGS84"}]), None
     if k == "epsg4326":
@@ -83,13 +94,15 @@ def gen_crs(r):
 
 def gen_points(r, crs_kind):
     """-> (class label, lons, lats)"""
-    geo = crs_kind in ("longlat", "epsg4326")
+    geo = crs_kind in ("longlat", "epsg4326", "pm_geographic")
     classes = ["box", "box", "box", "dyadic", "antimeridian", "antimeridian", "global", "pole", "same_x", "same_y", "single",
                "repeated_point", "two"]
     if geo:
         classes += ["antimeridian", "antimeridian", "global", "near355", "pole_antimeridian"]
     c = r.choice(classes)
-    if geo and r.random() < 0.45:
+    if crs_kind in ("epsg_merc", "epsg4326", "merc", "eqc", "longlat") and r.random() < 0.3:
+        c = "zero_bound"
+    elif geo and r.random() < 0.45:
         c = r.choice(["antimeridian", "antimeridian", "global", "near355", "pole_antimeridian"])
     n = r.choice([1, 2, 3, 4, 6, 9, 12, 20, 36]) if c not in ("single",) else 1
     lon0 = r.choice([10.0, -60.0, 120.0, 0.0, 13.0, 170.0, -170.0]) + r.uniform(-5, 5)
@@ -126,6 +139,25 @@ def gen_points(r, crs_kind):
         lons, lats = [lons[0]] * n, [lats[0]] * n
     elif c == "two":
         lons, lats = lons[:2] if n >= 2 else lons * 2, lats[:2] if n >= 2 else lats * 2
+    elif c == "zero_bound":
+        # the westernmost / easternmost (or southern-/northernmost) position is exactly on lon 0 / lat 0: projected 0.0
+        e = r.choice(["west", "east", "both_x", "south", "north"])
+        span = r.choice([0.5, 5.0, 30.0])
+        m = max(n, 2)
+        if e == "west":
+            lons = [0.0] + [r.uniform(0.01, span) for _ in range(m - 1)]
+        elif e == "east":
+            lons = [0.0] + [-r.uniform(0.01, span) for _ in range(m - 1)]
+        elif e == "both_x":
+            lons = [0.0] * m
+        lats = (lats * m)[:m]
+        if e == "south":
+            lats = [0.0] + [r.uniform(0.01, span) for _ in range(m - 1)]
+            lons = (lons * m)[:m]
+        elif e == "north":
+            lats = [0.0] + [-r.uniform(0.01, span) for _ in range(m - 1)]
+            lons = (lons * m)[:m]
+        c += "_" + e
     # malformed sprinkles
     m = r.random()
     if m < 0.12 and len(lons) >= 1:
@@ -219,7 +251,7 @@ def gen_freeze_cases(ctx):
     n = ctx.n(520, 6000)
     for i in range(n):
         ck, crs, info = gen_crs(r)
-        geo = ck in ("longlat", "epsg4326")
+        geo = ck in ("longlat", "epsg4326", "pm_geographic")
         pc, lons, lats = gen_points(r, ck)
         pat, ctor, fz = gen_args(r, geo)
         if info:
@@ -245,7 +277,32 @@ def gen_freeze_cases(ctx):
                       "lons": [hexs(v) for v in lons], "lats": [hexs(v) for v in lats], "shape2d": shape2d, "kind": kind,
                       "chunks": r.choice([1, 2, 3, 5, 100])})
     cases += gen_optimize_cases(ctx)
+    cases += gen_two_step_cases(ctx)
     return cases
+
+
+def gen_two_step_cases(ctx):
+    """freeze a granule over the antimeridian (any mode), then fit the NEXT granule on the CRS that first result handed out"""
+    r = ctx.rng
+    out = []
+    for _ in range(ctx.n(24, 240)):
+        n1 = r.choice([4, 8, 30])
+        l1 = [((165.0 + 30.0 * k / (n1 - 1)) + 180.0) % 360.0 - 180.0 for k in range(n1)]
+        first = {"lons": [hexs(v) for v in l1], "lats": [hexs(25.0 + 10.0 * k / (n1 - 1)) for k in range(n1)],
+                 "resolution": res_json(r.choice([0.5, 0.25])), "antimeridian_mode": r.choice(["modify_crs", "modify_crs", "modify_extents", None]),
+                 "as": r.choice(["crs", "proj4"])}
+        n2 = r.choice([3, 6, 12])
+        c0 = r.choice([170.0, 178.0, -175.0, 150.0, 0.0, 20.0])
+        lons = [((c0 + r.uniform(-8, 8)) + 180.0) % 360.0 - 180.0 for _ in range(n2)]
+        lats = [r.uniform(20, 40) for _ in range(n2)]
+        fz = {"resolution": res_json(r.choice([0.5, 1.0]))} if r.random() < 0.7 else {"shape": [r.choice([2, 5, 9]), r.choice([2, 6, 11])]}
+        m = r.choice(MODES)
+        if m:
+            fz["antimeridian_mode"] = m
+        out.append({"crs": {"proj": "longlat"}, "crs_kind": "two_step", "points": "next_granule", "pattern": "two_step", "via": None,
+                    "first": first, "ctor": {}, "freeze": fz, "lons": [hexs(v) for v in lons], "lats": [hexs(v) for v in lats],
+                    "shape2d": None, "kind": r.choice(["numpy", "dask", "swath"]), "chunks": 3})
+    return out
 
 
 def gen_optimize_cases(ctx):
@@ -514,9 +571,9 @@ def oracle_freeze_core(case, o, res, shape, explicit, tag):
                 bad.append(("C14.antimeridian.global_extents", "global_extents with a shape: x extent %r..%r is not the CRS extent %r..%r (%s)" % (ext[0], ext[2], W, E, tag)))
     # antimeridian mode followed
     px = fx(o["pixel_size"][0])
-    if R["geo"] and fz.get("antimeridian_mode") == "modify_crs" and R["pm180"] and (ext[0] < -180 - 1.5 * px - tx or ext[2] > 180 + 1.5 * px + tx):
+    if R["geo"] and fz.get("antimeridian_mode") == "modify_crs" and pm_moved(o) and (ext[0] < -180 - 1.5 * px - tx or ext[2] > 180 + 1.5 * px + tx):
         bad.append(("C14.antimeridian.modify_crs", "modify_crs: extent %s leaves the [-180, 180] range of the shifted CRS (%s)" % (ext, tag)))
-    if not R["geo"] and R["pm180"]:
+    if not R["geo"] and pm_moved(o):
         bad.append(("C14.antimeridian.modify_crs", "prime meridian changed for a non-geographic CRS (%s)" % tag))
     # H_pm (reading of PROJ's +pm=180 used by C14_freeze_contains_points / frozen_x): the coordinate PROJ gives in the frozen
     # CRS is the implementation's own projected x, modulo 360, minus 180 when the prime meridian was moved
@@ -524,7 +581,7 @@ def oracle_freeze_core(case, o, res, shape, explicit, tag):
         for i, x, y in pts:
             x0 = fx(o["pts"][i][0])
             if finite(x0):
-                dlt = (x - (x0 - (180.0 if R["pm180"] else 0.0))) / 360.0
+                dlt = (x - (x0 - (180.0 if pm_moved(o) else 0.0))) / 360.0
                 if abs(dlt - round(dlt)) > 1e-9:
                     bad.append(("C14.pm_shift.reading", "PROJ places lon %r at x=%r in %s, not at (%r - pm) modulo 360 (%s)" % (lons[i], x, R["crs"], x0, tag)))
                     break
@@ -564,6 +621,15 @@ def oracle_cd(c, o):
 
 
 # ------------------------------------------------------------------ Coq case text
+def pm_moved(o):
+    """the observable behind the model's f_pm180: the prime meridian of the result is the requested one moved by 180 degrees"""
+    R = o["result"]
+    pin = o.get("pm_in")
+    if pin is None:
+        return bool(R["pm180"])
+    return abs(((R["pm"] - pin) % 360.0) - 180.0) < 1e-9
+
+
 def coq_fcase(case, o):
     ctor, fz = case.get("ctor", {}), case.get("freeze", {})
     mode = fz.get("antimeridian_mode")
@@ -592,7 +658,7 @@ def coq_fcase(case, o):
     pts = "[" + "; ".join("(%s, %s)" % (flit(fx(a)), flit(fx(b))) for a, b in o.get("pts", [])) + "]"
     if "result" in o:
         R = o["result"]
-        exp = "(Some ((%s), (%d), (%d), %s))" % (", ".join(flit(fx(v)) for v in R["extent"]), R["w"], R["h"], "true" if R["pm180"] else "false")
+        exp = "(Some ((%s), (%d), (%d), %s))" % (", ".join(flit(fx(v)) for v in R["extent"]), R["w"], R["h"], "true" if pm_moved(o) else "false")
     else:
         exp = "None"
     return "(%s, %s, %s, %s, %s, %s, %s, %s)" % (d, fres, fshape, "true" if geo else "false",
@@ -651,7 +717,9 @@ def one_sample(ctx, sample):
 
 
 def run(ctx):
-    ctx.rule = ("freeze: PRNG over CRS (longlat x3 spellings, EPSG:4326, laea incl. proj_info, stere N/S, merc, eqc, EPSG:3035) x point "
+    ctx.rule = ("freeze: PRNG over CRS (longlat x3 spellings, EPSG:4326, laea incl. proj_info, stere N/S, merc, eqc, EPSG:3035, EPSG:3857/3395, "
+                "non-Greenwich prime meridians: EPSG:27571 and +pm= on lcc/laea/merc/eqc/longlat; two-step: the next granule fitted on the "
+                "CRS a previous antimeridian freeze handed out; bounds exactly on lon 0 / lat 0 = projected 0.0) x point "
                 "clouds (boxes, dyadic, antimeridian-crossing, global, |span| near 355, poles, zero span in x / y, single and repeated "
                 "points, NaN / 1e30 / out-of-range sprinkles, all-NaN) x argument patterns (resolution scalar/int/pair via constructor "
                 "or freeze, shapes incl. one-pixel axes, both, neither, explicit extent+shape, partial) x 5 antimeridian modes x 8 "
@@ -689,8 +757,10 @@ def run(ctx):
         ctx.count("mode:%s" % case["freeze"].get("antimeridian_mode"))
         ctx.count("entry:" + ("optimize_projection" if case.get("optimize") else (case.get("via") or "DynamicAreaDefinition()")))
         ctx.count("outcome:" + ("area" if "result" in o else "error:%s" % o.get("error")))
-        if "result" in o and o["result"]["pm180"]:
+        if "result" in o and pm_moved(o):
             ctx.count("branch:pm180")
+        if o.get("pm_in"):
+            ctx.count("crs_prime_meridian:non_greenwich")
         if "aou" in o:
             ctx.count("branch:full_x_extent")
         if "result" in o and o["result"]["geo"] and not o["result"]["pm180"] and fx(o["result"]["extent"][2]) > 181:
